@@ -34,6 +34,8 @@ func main() {
 		cmdRun(os.Args[2:])
 	case "check":
 		os.Exit(cmdCheck(os.Args[2:]))
+	case "templates":
+		cmdTemplates(os.Args[2:])
 	case "replay":
 		os.Exit(cmdReplay(os.Args[2:]))
 	default:
